@@ -159,13 +159,19 @@ pub fn run(ctx: &mut Ctx) {
                 inputs.push(h[..n.min(h.len())].to_vec());
             }
         }
+        // the record-layer (legacy) version is not part of the ClientHello: 3.0 .. 3.4 all carry the same hello
+        for minor in [0u8, 2, 3, 4] {
+            let mut m = h.clone();
+            m[2] = minor;
+            inputs.push(m);
+        }
         // mutations of every length field (record, handshake, session id, suites, compression, extensions)
         if h.len() > 80 {
             let sid_len = h[43] as usize;
             let suites_off = 44 + sid_len;
             let suites_len = ((h[suites_off] as usize) << 8) | h[suites_off + 1] as usize;
             let comp_off = suites_off + 2 + suites_len;
-            let offs = [3usize, 4, 6, 7, 8, 43, suites_off, suites_off + 1, comp_off, comp_off + 2, comp_off + 3, 0, 5, 9, 10];
+            let offs = [3usize, 4, 6, 7, 8, 43, suites_off, suites_off + 1, comp_off, comp_off + 2, comp_off + 3, 0, 5, 9, 10, 1, 2];
             for off in offs {
                 if off < h.len() {
                     for delta in [1u8, 0xff, 0x80] {
